@@ -224,7 +224,7 @@ class Mon:
         self.disc[why] = self.disc.get(why, 0) + 1
 
     def violation(self, summary, case, replay=None):
-        if len(self.viol) < 30:
+        if len(self.viol) < self.spec.get("maxviol", 30):
             v = {"summary": summary[:400], "case": case}
             if replay:
                 v["replay_spec"] = replay
@@ -594,8 +594,10 @@ def judge(mon, p, res):
 # workloads
 
 
-def gen_cfg(r, avoid):
+def gen_cfg(r, avoid, shape=None):
     cfg = {"ptr_size": 4, "shape": "mem" if r.random() < 0.3 else "ssa", "size": r.choice([6, 10, 14])}
+    if shape:
+        cfg["shape"] = shape
     return cfg
 
 
@@ -609,7 +611,7 @@ def part_gen(spec, mon):
     avoid = spec["avoid"]
     for idx in range(spec["start"], spec["start"] + spec["count"]):
         r = rng(spec["seed"], PROPERTY, idx)
-        cfg = gen_cfg(r, avoid)
+        cfg = gen_cfg(r, avoid, spec.get("shape"))
         m, info = irgen.gen_module(r, cfg)
         why = static_avoid(m, avoid)
         if why:
